@@ -42,6 +42,7 @@ class Check:
         s.known = load_known().get(pid, [])
         s.mirinfo = {}
         s.replay_cases = 0
+        s.diffq = []             # thorough tier: a sample of proved queries re-decided by two other solvers
     # ---- engine ----
     def engine(s, **kw):
         bodies, info = mirdump.load(REPO); s.mirinfo = info
@@ -81,6 +82,11 @@ class Check:
         t = time.time(); r = sol.check(); dt = time.time() - t; s.solver_s += dt
         res = 'sat' if r == z3.sat else ('unsat' if r == z3.unsat else 'unknown')
         s.queries.append(dict(name=name, result=res, s=round(dt, 3)))
+        if s.tier == 'thorough' and res == 'unsat' and not name.startswith('witness') and len(s.diffq) < 60 and (len(s.queries) % 7 == 1 or len(s.diffq) < 10):
+            try:
+                txt = sol.to_smt2()
+                if len(txt) < 400000: s.diffq.append((name, txt))
+            except Exception: pass
         if len(s.samples) < 4 and res == 'unsat':
             try:
                 txt = sol.to_smt2()
@@ -200,15 +206,45 @@ class Check:
             for k in o['known_hits']:
                 if k not in s.known_hits: s.known_hits.append(k)
             s.samples += o['samples'][:2] if len(s.samples) < 12 else []
+            s.diffq += o.get('diffq', [])[:max(0, 60 - len(s.diffq))]
             s.notes += o['notes']; s.states += o['states']; s.transitions += o['transitions']; s.validated += o['validated']; s.replay_cases += o['replay_cases']
             for k, v in o['functions'].items(): s.functions[k] = s.functions.get(k, 0) + v
             for k, v in o['models_used'].items(): s.models_used[k] = s.models_used.get(k, 0) + v
             s.mirinfo = o['mirinfo'] or s.mirinfo
             for a in o['assumptions']:
                 if a not in s.assumptions: s.assumptions.append(a)
+    # ---- second opinion (thorough tier) ----
+    def solver_diff(s):
+        """re-decide a sample of the queries z3 4.8.12 proved (unsat) with cvc5 1.0 and z3 5.1 (z3-new): an answer `sat` from either is a disagreement
+        (reported inconclusive, never a violation); `unknown`, timeouts and parse errors are counted, not judged"""
+        import tempfile, shutil, concurrent.futures as cf
+        if not s.diffq: return None
+        d = tempfile.mkdtemp(prefix='verif-diff-', dir=os.path.join(VERIF, '.cache'))
+        jobs = []
+        for i, (name, txt) in enumerate(s.diffq):
+            f = os.path.join(d, f'q{i}.smt2'); open(f, 'w').write('(set-logic ALL)\n' + txt)
+            for tool, cmd in (('cvc5', ['cvc5', '--lang', 'smt2', '--tlimit=20000', f]), ('z3-new', ['z3-new', '-T:20', f])):
+                if shutil.which(cmd[0]): jobs.append((name, tool, cmd))
+        def run1(j):
+            name, tool, cmd = j
+            try:
+                r = subprocess.run(cmd, capture_output=True, text=True, timeout=40); out = (r.stdout + r.stderr).strip().splitlines()
+                first = out[0].strip() if out else ''
+                if any('(error' in l or 'rror:' in l for l in out): return (name, tool, 'error')
+                return (name, tool, first if first in ('sat', 'unsat', 'unknown') else 'unknown')
+            except subprocess.TimeoutExpired: return (name, tool, 'timeout')
+            except Exception: return (name, tool, 'error')
+        with cf.ThreadPoolExecutor(max_workers=12) as ex: outs = list(ex.map(run1, jobs))
+        shutil.rmtree(d, ignore_errors=True)
+        summ = {}
+        for name, tool, r in outs:
+            summ.setdefault(tool, {}).setdefault(r, 0); summ[tool][r] += 1
+            if r == 'sat': s.inconclusive.append(f'solver disagreement: z3 4.8.12 proved "{name}" but {tool} answers sat')
+        return dict(queries=len(s.diffq), by_solver=summ)
     # ---- finish ----
     def finish(s):
         for e in getattr(s, '_engines', []): s.absorb(e)
+        diff = s.solver_diff() if s.tier == 'thorough' else None
         wall = time.time() - s.t0
         nq = len(s.queries); disc = sum(1 for q in s.queries if q['result'] in ('unsat',) or q['name'].startswith('witness'))
         if not s.samples: s.samples.append(dict(note='no obligations sampled', queries=s.queries[:3]))
@@ -218,7 +254,7 @@ class Check:
                                 queries=[q for q in s.queries][:400], solver_s=round(s.solver_s, 2),
                                 functions_encoded=sorted(s.functions), models_used=sorted(s.models_used),
                                 bounds=s.bounds, known_findings_hit=s.known_hits, inconclusive=s.inconclusive, notes=s.notes,
-                                mir=s.mirinfo, exhaustive=False,
+                                mir=s.mirinfo, exhaustive=False, second_opinion=diff,
                                 trusted_base=['rustc MIR printer', 'mirsmt parser/executor', 'std/nalgebra semantic models (numerically validated)', 'z3 4.8.12']),
                   assumptions=s.assumptions, wall_s=round(wall, 2), violations=len(s.violations))
         os.makedirs(os.path.join(VERIF, 'evidence'), exist_ok=True)
@@ -246,7 +282,7 @@ def _worker(p):
     for e in getattr(ck, '_engines', []): ck.absorb(e)
     return dict(queries=ck.queries, solver_s=ck.solver_s, violations=ck.violations, inconclusive=ck.inconclusive, known_hits=ck.known_hits, samples=ck.samples,
                 notes=ck.notes, states=ck.states, transitions=ck.transitions, validated=ck.validated, replay_cases=ck.replay_cases, functions=ck.functions,
-                models_used=ck.models_used, mirinfo=ck.mirinfo, assumptions=ck.assumptions)
+                models_used=ck.models_used, mirinfo=ck.mirinfo, assumptions=ck.assumptions, diffq=ck.diffq[:12])
 
 def fmt_arg(v):
     if isinstance(v, (list, tuple)): return ','.join(fmt_arg(x) for x in v)
